@@ -361,6 +361,41 @@ def falsifier(chk, seed, n):
                            'with an exact rational reference', bounds=f"{len(seen)} distinct segment pairs")
 
 
+def engine_crosscheck(chk, reps, seed, n):
+    """The symbolic engine against CPython (trusted-base check, part of every run): for concrete inputs on the quarter grid
+    (exact in floats) the real function is executed by CPython; with the inputs substituted into the engine's path conditions
+    exactly the path CPython took must be feasible and the engine's symbolic result must equal CPython's (1e-9)."""
+    from pyvc.verify import crosscheck
+    de = _real()
+    rnd = random.Random(seed + 17)
+    pt = lambda: (rnd.randint(-16, 16) / 4, rnd.randint(-16, 16) / 4)
+    named = lambda **k: [(R(nm + ax), v[i]) for nm, v in k.items() for i, ax in enumerate('xy')]
+    tally = {}
+    bad = []
+    for _ in range(n):
+        a, b, c, d = pt(), pt(), pt(), pt()
+        rr = rnd.randint(0, 8) / 2
+        nn = (d[1] - c[1]) * (b[0] - a[0]) - (d[0] - c[0]) * (b[1] - a[1])
+        runs = [('distance', named(p1=a, p2=b), de.distance(a, b)),
+                ('project', named(s1=a, s2=b, p=c) + [(R('delta'), 0)], de.project(a, b, c)),
+                ('distance_point_to_segment', named(q=c, a1=a, a2=b) + [(R('delta'), 0)], de.distance_point_to_segment(c, a, b)),
+                ('box_around_point', named(c=a) + [(R('r'), rr)], de.box_around_point(a, rr))]
+        g = 'distance_segment_to_segment@generic[n>tol]' if nn > 1e-8 else \
+            ('distance_segment_to_segment@generic[n<-tol]' if nn < -1e-8 else 'distance_segment_to_segment@exactly-parallel')
+        if g in reps:
+            runs.append((g, named(f1=a, f2=b, t1=c, t2=d), de.distance_segment_to_segment(a, b, c, d)))
+        for grp, inp, want in runs:
+            if grp not in reps:
+                continue
+            st, det = crosscheck(reps[grp], inp, want)
+            tally[(grp, st)] = tally.get((grp, st), 0) + 1
+            if st in ('mismatch', 'no-path'):
+                bad.append(f"{grp} on {[(str(k), v) for k, v in inp]}: {st} {det}"[:400])
+    chk.extra['engine_crosscheck_vs_cpython'] = {f"{g}:{st}": k for (g, st), k in sorted(tally.items())}
+    if bad:
+        chk.undecided.append("engine cross-check against CPython failed (the symbolic executor disagrees with the interpreter it models): " + bad[0])
+
+
 # ------------------------------------------------------------------------------------------ entry points
 def run(tier, seed, only=None):
     chk = Check('C13', tier, seed, level='other')
@@ -376,7 +411,9 @@ def run(tier, seed, only=None):
     lem = solve.discharge(lemma_obligations(), timeout_ms=timeout)
     chk.record(lem, 'lemmas(L-kkt,L-proj)')
     total_paths = 0
+    reps = {}
     for group, fv, rep, replayer in build(prog, tier):
+        reps[group] = rep
         chk.add_function(prog.span(fv))
         if rep.unsupported:
             chk.undecided.append(f"{group}: unsupported construct(s): {sorted(set(rep.unsupported))[:3]}")
@@ -400,6 +437,7 @@ def run(tier, seed, only=None):
         chk.record(res, group, replayer=replayer, tolerate_unknown=hard)
         chk.notes.append(f"{group}: paths={rep.paths} returning={rep.returning} raising={rep.raising}")
     falsifier(chk, seed, 2000 if tier == "quick" else 40000)
+    engine_crosscheck(chk, reps, seed, 12 if tier == 'quick' else 150)
     chk.extra['paths_explored'] = total_paths
     return chk.finish()
 
